@@ -60,6 +60,7 @@ func TestC13(t *testing.T) {
 	chainPropertyOpt(t, "C13", false, []int{1, 3, 3, 3}, func(r *Runner, fail func(class, witness, detail string)) Hooks {
 		models := map[common.Hash]map[lockKey]lockRec{}
 		coinbaseBal := map[common.Hash]*big.Int{}
+		r.MinerDataFaults = true
 		return Hooks{AfterHead: func(w *World, n *Node, bi *BlockInfo, reorg bool) {
 			blk := n.Zone().GetBlockByHash(bi.Hash)
 			if blk == nil {
